@@ -94,6 +94,12 @@ public:
   /// because the exports are lazy.
   void FinishExportingLinkEntries() { ExportRemainingEntries(); }
 
+  /// Is entry \a i of link \a b the last registered one?
+  bool IsLastRegisteredEntry(const BasicLink& b, int i) const {
+    return !brl_.empty() && &brl_.back().b_==&b
+        && brl_.back().ir_.end_==i+1;
+  }
+
   /// Check that the whole entries list has been exported
   bool AllEntriesExported() const { return brl_.size()==(size_t)i_exported_; }
 
@@ -307,6 +313,11 @@ private:
 inline void
 BasicLink::RegisterLinkIndexRange(LinkIndexRange bir)
 { value_presolver_.Add( { *this, bir } ); }
+
+/// Implement the query whether an entry may still be extended in place
+inline bool
+BasicLink::IsLastRegisteredEntry(int i) const
+{ return value_presolver_.IsLastRegisteredEntry(*this, i); }
 
 } // namespace pre
 
